@@ -65,12 +65,14 @@ func rulesNewickNames(c *Ctx, r *Report) {
 	n2t := c.role("newick.nameToText")
 	t2n := c.role("newick.nameFromText")
 	qd := c.role("newick.quoted")
-	if tok == nil || n2t == nil || t2n == nil || qd == nil {
-		r.undecided("G3", "formats/newick", "anchor", "", "nextToken, nameToText, nameFromText or quoted not found")
+	if tok == nil || n2t == nil || t2n == nil {
+		r.undecided("G3", "formats/newick", "anchor", "", "nextToken, nameToText or nameFromText not found")
 		return
 	}
 	for _, f := range []*ssa.Function{tok, n2t, t2n, qd} {
-		r.analysed(fname(f))
+		if f != nil {
+			r.analysed(fname(f))
+		}
 	}
 	// Specials: constants the ReadByte result is compared with
 	var inByte ssa.Value
@@ -177,17 +179,17 @@ func rulesNewickNames(c *Ctx, r *Report) {
 	// reader's unquoted substitution
 	var R, unQ *replSpec
 	var unqSlice *ssa.Slice
-	qcalls := staticCallsTo(t2n, qd)
+	// the two branches of nameFromText: un-quoting works on a sub-slice of the token, the other on the token itself
 	var tq, tu *ssa.BasicBlock
-	if len(qcalls) == 1 {
-		for _, ref := range *qcalls[0].Referrers() {
-			if iff, ok := ref.(*ssa.If); ok {
-				tq, tu = iff.Block().Succs[0], iff.Block().Succs[1]
-			}
+	for _, rp := range replaceAlls(t2n) {
+		if sl, ok := rp.call.Call.Args[0].(*ssa.Slice); ok && sl.X == ssa.Value(t2n.Params[0]) {
+			tq = rp.call.Block()
+		} else if rp.call.Call.Args[0] == ssa.Value(t2n.Params[0]) {
+			tu = rp.call.Block()
 		}
 	}
-	if tq == nil {
-		r.undecided("G3", fname(t2n), "quoted branch", c.pos(t2n.Pos()), "nameFromText does not branch on quoted(s)")
+	if tq == nil || tu == nil || tq == tu || tq.Dominates(tu) || tu.Dominates(tq) {
+		r.undecided("G3", fname(t2n), "quoted branch", c.pos(t2n.Pos()), "nameFromText does not have a quoted branch (ReplaceAll on a sub-slice of the token) and an unquoted one (ReplaceAll on the token)")
 		return
 	}
 	for _, rp := range replaceAlls(t2n) {
@@ -239,8 +241,19 @@ func rulesNewickNames(c *Ctx, r *Report) {
 	r.check(okWrap && okStrip, "G3", "formats/newick.nameFromText~nameToText", "quote wrapping inverse", c.pos(t2n.Pos()),
 		"the writer adds one quote on each side; the reader removes exactly the first and the last byte of a quoted token",
 		fmt.Sprintf("wrapping/unwrapping disagree (writer adds one quote each side: %v; reader takes s[1:len(s)-1]: %v): names that begin or end with a quote are corrupted", okWrap, okStrip))
-	// quoted(): len >= 2 && s[0]=='\'' && s[len-1]=='\''
-	rulesQuotedPredicate(c, r, qd)
+	// quoted: len >= 2 && s[0]=='\'' && s[len-1]=='\'' — as a helper, or inline as the guard of the quoted branch
+	ts := newSymb(t2n)
+	guard := guardOf(ts, tq, nil)
+	if qd != nil && strings.HasPrefix(guard, "call:") && !strings.Contains(guard, " && ") {
+		rulesQuotedPredicate(c, r, qd)
+		return
+	}
+	conds := strings.Split(guard, " && ")
+	sort.Strings(conds)
+	want := []string{"(2 <= builtin:len(P0))", "(39 == P0[(builtin:len(P0) - 1)])", "(39 == P0[0])"}
+	sort.Strings(want)
+	r.check(strings.Join(conds, " && ") == strings.Join(want, " && "), "G3", fname(t2n), "quoted predicate", c.pos(t2n.Pos()),
+		"a token counts as quoted iff len >= 2 and its first and last bytes are quotes (tested inline)", "the quoted branch is taken under "+guard+", want len(s) >= 2 && s[0] == quote && s[len(s)-1] == quote")
 }
 
 func rulesQuotedPredicate(c *Ctx, r *Report, qd *ssa.Function) {
